@@ -501,6 +501,22 @@ func runCheck(repo, verif, prop, tier string, keep bool) int {
 		"wall_s":      time.Since(t0).Seconds(),
 		"violations":  len(violLines),
 	}
+	if tier == "thorough" {
+		// must-fail corpus: every seeded change recorded as caught for this
+		// property has to fail an obligation again (overlay, /repo untouched)
+		total, caught, rep := runSelftest(repo, verif, prop, 10*time.Second)
+		cov := ev["coverage"].(map[string]interface{})
+		cov["selftest_seeds"] = total
+		cov["selftest_caught"] = caught
+		cov["selftest_report"] = rep
+		for _, l := range rep {
+			fmt.Println("selftest:", l)
+		}
+		if caught != total {
+			engineErrs = append(engineErrs, fmt.Sprintf("selftest: %d of %d seeded changes that used to be caught now survive", total-caught, total))
+		}
+		ev["wall_s"] = time.Since(t0).Seconds()
+	}
 	evPath := filepath.Join(verif, "evidence", prop+".json")
 	os.MkdirAll(filepath.Dir(evPath), 0o755)
 	b, _ := json.MarshalIndent(ev, "", " ")
